@@ -5,6 +5,8 @@ ENTRY = dict(
          "(Fingerprinter on the class's own ClientHello, re-applied as HelloCustom) of every parrot and of a rotating quarter of the randomized "
          "ones, custom specs: five shares, hybrid-only, P-384 only (TLSVersMin 1.0); supported_versions lists in descending / ascending / shuffled "
          "order with GREASE at any position, TLSVersMin/TLSVersMax unset (0) and set (8 fixed + 3 quick / 12 thorough drawn from the seed); "
+         "key_share lists over order and multiplicity (classical before / after the hybrid share, several classical shares around it, either "
+         "hybrid group: 12 fixed lists + 4 quick / 24 thorough permutations drawn from the seed), every share selection of them in every tier; "
          "re-preset sequences on one UConn (ApplyPreset twice / three times with the same spec, a different spec first: Chrome_133, five shares, "
          "hybrid-only, a fingerprinted spec twice). A class that does not build is a failure (build/<class>). When the wire hello lists its "
          "versions in a non-descending order every server is pinned to one version (MinVersion = MaxVersion). Per class one honest probe handshake, then one "
